@@ -1,60 +1,28 @@
 (* Entry point of the extracted model for property C18.
    cases: (1 scenario)                 a demux scenario whose reader starts failing at an offset (RunDemux.v)
+          (3 scenario cause)          the same; the reader's failure is an error that wraps io.EOF / io.ErrUnexpectedEOF
           (2 period ops failAt)        a muxer history whose io.Writer fails on its failAt-th Write call (0-based, counted
                                        over the whole history); the history is observed up to and including the failing call
    observation of (2): one entry per call (code n accepted): for the failing call code = the injected error,
    n = what the call reports (the sizes of the parts it accounts for that were completed before the failing Write),
    accepted = the bytes the writer accepted during the call before the failing Write. *)
 From Coq Require Import ZArith List.
-Require Import Base.Tok Base.Iter Base.Wr Gen.Consts Gen.Types Gen.Preds Model.Packet Model.Muxer Model.DemuxFull Model.Faults
+Require Import Base.Tok Base.Iter Base.Wr Gen.Consts Gen.Types Gen.Preds Model.Packet Model.Muxer Model.DemuxFull Model.Faults Model.MuxFaults
   Extract.RunBase Extract.RunDemux Extract.RunMux.
 Import ListNotations.
 Open Scope Z_scope.
 
-(* Muxer.WritePacket returns writePacket's own count: sync byte, header, adaptation field, payload and every trailing
-   0xFF are accounted separately *)
-Definition packet_parts (p : Packet) (target : Z) : list (list (list Z)) :=
-  match enc_packet p target with
-  | Ok _ =>
-      let h := Packet_Header p in
-      let af := if PacketHeader_HasAdaptationField h
-                then match Packet_AdaptationField p with
-                     | Some a => match enc_adaptation_field a with Ok (its, n) => (its, n) | _ => ([], 0) end
-                     | None => ([], 0) end
-                else ([], 0) in
-      let written := 1 + C_mpegTsPacketHeaderSize + snd af in
-      let plen := Z.of_nat (length (Packet_Payload p)) in
-      let written' := if PacketHeader_HasPayload h then written + plen else written in
-      [chunks_of [wu8 syncByte]; chunks_of (enc_packet_header h)] ++
-      (match fst af with [] => [] | its => [chunks_of its] end) ++
-      (if PacketHeader_HasPayload h then match Packet_Payload p with [] => [] | pl => [[pl]] end else []) ++
-      repeat [[255]] (Z.to_nat (target - written'))
-  | _ => []
-  end.
+(* the faulty run itself is Model/MuxFaults.v mux_run_faulty (the subject of the C18_mux_* theorems) *)
+Definition tok_of_fentry (e : fentry) : tok :=
+  let '(c, n, bs) := e in TL [TI c; TI n; TB bs].
 
-Definition groups_of_call (o : mop) (out : mout) : list (list (list Z)) :=
-  match o, mo_res out with
-  | MWritePacket p, Ok _ => packet_parts p C_MpegTsPacketSize
-  | _, _ => mo_groups out
-  end.
-
-Fixpoint run_faulty (s : mstate) (ops : list mop) (k : Z) : list tok :=
-  match ops with
-  | [] => []
-  | o :: r =>
-      let '(s', out) := mux_step s o in
-      let groups := groups_of_call o out in
-      let nwrites := Z.of_nat (length (concat groups)) in
-      if k <? nwrites then
-        [TL [TI E_injected; TI (n_before groups k); TB (accepted (concat groups) k)]]
-      else
-        TL [TI (code_of_res (mo_res out)); TI (match mo_res out with Panic => 0 | _ => mo_n out end); TB (mout_bytes out)]
-        :: run_faulty s' r (k - nwrites)
-  end.
+Definition run_faulty (s : mstate) (ops : list mop) (k : Z) : list tok :=
+  map tok_of_fentry (mux_run_faulty s ops k).
 
 Definition run_C18 (t : tok) : tok :=
   match tI (tnth 0 t) with
   | 1 => run_demux full_parsers (tnth 1 t)
+  | 3 => run_demux full_parsers (tnth 1 t)   (* the failure wraps io.EOF / io.ErrUnexpectedEOF: not end of file either *)
   | 2 => TL (run_faulty (new_muxer (tI (tnth 1 t))) (map mop_of_tok (tL (tnth 2 t))) (tI (tnth 3 t)))
   | _ => TL []
   end.
